@@ -2,6 +2,7 @@ package c09
 
 import (
 	"fmt"
+	"os"
 	"strconv"
 	"strings"
 
@@ -177,7 +178,7 @@ func runFormat(ctrl string, args int) *obs {
 }
 
 func isolateFormat(ctrl string, args int) bool {
-	if os_Getenv("C09_CHILD") != "" {
+	if os.Getenv("C09_CHILD") != "" {
 		return false
 	}
 	for _, d := range splitDirectives(ctrl) {
